@@ -497,13 +497,16 @@ def guard(ctx, sub, fn, *args):
 		ctx.inconclusive_because("%s: %s" % (sub, e))
 	except Exception as e:
 		tb = traceback.extract_tb(e.__traceback__)
-		inner = tb[-1].filename if tb else "?"
 		txt = "".join(traceback.format_exception(type(e), e, e.__traceback__))[-1500:]
+		# whose call raised?  walk from the innermost frame outwards, past library frames, to the first
+		# frame that belongs to the repository or to the harness
+		owner = next((f for f in reversed(tb) if f.filename.startswith(REPO) or f.filename.startswith(VERIF)), None)
+		inner = owner.filename if owner else "?"
 		if inner.startswith(REPO):
 			# the real code raised where the harness expected a normal return
 			ctx.violation(sub, {"exception": txt}, mechanism = None,
 				what = "unexpected %s from repository code at %s:%d" %
-					(type(e).__name__, os.path.relpath(inner, REPO), tb[-1].lineno))
+					(type(e).__name__, os.path.relpath(inner, REPO), owner.lineno))
 		else:
 			ctx.inconclusive_because("%s: harness error: %s" % (sub, txt))
 
